@@ -178,6 +178,8 @@ class CdefGen:
             vals.append(nxt)
             self.consts.append(en)
             nxt += 1
+            if nxt >= I64 or (nxt >= I63 and any(x < 0 for x in vals)):
+                break         # an implicit next enumerator would not fit any more
         if r.random() < 0.7:
             self.lines.append("enum %s { %s };" % (name, ", ".join(items)))
             self.types.append("enum %s" % name)
